@@ -23,7 +23,7 @@
        (such keys belong into a common prefix), was not delivered by an earlier page of
        this loop, and lies after the marker / start-after the loop started with
      * common prefixes only with delimiter "/"; each is prefix + segment + "/" of some
-       key or folder under the prefix, is not .uploads, was not delivered before
+       key or folder (as the filer holds them just before the page) under the prefix, is not .uploads, was not delivered before
      * a page that says "not truncated" ends the enumeration: every key of the bucket
        that is under the prefix (and after the initial marker) has been delivered by
        then - itself, or, with delimiter "/", rolled up in a delivered common prefix
@@ -46,11 +46,13 @@ CONSTANTS Alpha,       \* sequence of all single-character tokens in byte order
           MaxBucket, MaxOps
 
 VARIABLES present, dirs,          \* bucket content
+          allowEmpty,             \* the gateway shows empty folders (S3ApiServerOption.AllowEmptyFolder)
+          devs,                   \* known deviations taken by pages of the running loop
           phase,                  \* "idle" | "loop" (last page truncated) | "done" (last page final)
           req, seenK, seenP, prev, pageNo,
           okv,                    \* ghost: the last page applied satisfied PageOK
           hist
-vars == <<present, dirs, phase, req, seenK, seenP, prev, pageNo, okv, hist>>
+vars == <<present, dirs, allowEmpty, devs, phase, req, seenK, seenP, prev, pageNo, okv, hist>>
 
 ---------------------------------------------------------------------------
 (* order and prefixes *)
@@ -70,13 +72,17 @@ HasDelim(k, p) == DelimAt(k, p) # {}
 Rollup(k, p) == LET i == CHOOSE i \in DelimAt(k, p) : \A j \in DelimAt(k, p) : i <= j IN SubSeq(k, 1, i)
 After(a, k) == a = <<>> \/ Lt(a, k)
 
-Matching(B, r) == {k \in B : HasPrefix(k, r.prefix) /\ ~Internal(k) /\ After(r.after, k)}
 RollsUp(k, r) == r.delim = "/" /\ HasDelim(k, r.prefix)
+(* the keys an enumeration that started after r.after has to deliver. A key that rolls up is owed only if its
+   common prefix lies after the marker: what a marker inside (or equal to) a common prefix means for the rest of
+   that group is not said (S3 itself skips the group when the marker is the common prefix) *)
+Matching(B, r) == {k \in B : /\ HasPrefix(k, r.prefix) /\ ~Internal(k)
+                             /\ After(r.after, IF RollsUp(k, r) THEN Rollup(k, r.prefix) ELSE k)}
 
 ---------------------------------------------------------------------------
 (* the judge *)
 NoDup(s) == \A i, j \in 1..Len(s) : i # j => s[i] # s[j]
-PageOK(r, sK, sP, resp) ==
+PageOK(r, sK, sP, DS, resp) ==
   /\ resp.status = 200
   /\ Len(resp.keys) <= r.maxkeys
   /\ NoDup(resp.keys) /\ NoDup(resp.cps)
@@ -91,7 +97,7 @@ PageOK(r, sK, sP, resp) ==
   /\ \A i \in 1..Len(resp.cps) : LET p == resp.cps[i] IN
         /\ ~Internal(p)
         /\ p \notin sP
-        /\ \E k \in present \cup dirs : HasPrefix(k, r.prefix) /\ ~Internal(k) /\ RollsUp(k, r) /\ Rollup(k, r.prefix) = p
+        /\ \E k \in present \cup DS : HasPrefix(k, r.prefix) /\ ~Internal(k) /\ RollsUp(k, r) /\ Rollup(k, r.prefix) = p
   /\ ~resp.trunc =>
         \A k \in Matching(present, r) :
            \/ k \in sK \cup ToSet(resp.keys)
@@ -102,28 +108,25 @@ NextAfter(style, resp) ==
   IF style \in {"marker", "token"} THEN resp.next
   ELSE IF resp.cps = <<>> /\ resp.keys # <<>> THEN resp.keys[Len(resp.keys)] ELSE resp.next
 
-Apply(r, first, resp) ==
+Apply(r, first, DS, resp) ==
   LET sK == IF first THEN {} ELSE seenK
       sP == IF first THEN {} ELSE seenP IN
-  /\ okv' = PageOK(r, sK, sP, resp)
+  /\ okv' = PageOK(r, sK, sP, DS, resp)
+  /\ dirs' = DS
   /\ seenK' = sK \cup ToSet(resp.keys)
   /\ seenP' = sP \cup ToSet(resp.cps)
   /\ req' = r
   /\ prev' = resp
   /\ pageNo' = IF first THEN 1 ELSE pageNo + 1
   /\ phase' = IF resp.trunc THEN "loop" ELSE "done"
-  /\ UNCHANGED <<present, dirs>>
+  /\ UNCHANGED <<present, allowEmpty>>
 
 (* the judged actions: a first page starts a loop; a further page must belong to the
    running loop and carry the continuation the client rule yields *)
-FirstPage(r, resp) == Apply(r, TRUE, resp) /\ okv'
-NextPage(r, sent, resp) ==
-  /\ phase = "loop"
-  /\ r = req
-  /\ sent = NextAfter(req.style, prev)
-  /\ sent # <<>>
-  /\ Apply(req, FALSE, resp) /\ okv'
-EndLoop == phase = "done" /\ phase' = "idle" /\ UNCHANGED <<present, dirs, req, seenK, seenP, prev, pageNo, okv>>
+InLoop(r, sent) == phase = "loop" /\ r = req /\ sent = NextAfter(req.style, prev) /\ sent # <<>>
+FirstPage(r, DS, resp) == Apply(r, TRUE, DS, resp) /\ okv' /\ devs' = {}
+NextPage(r, sent, DS, resp) == InLoop(r, sent) /\ Apply(req, FALSE, DS, resp) /\ okv' /\ UNCHANGED devs
+EndLoop == phase = "done" /\ phase' = "idle" /\ UNCHANGED <<present, dirs, allowEmpty, devs, req, seenK, seenP, prev, pageNo, okv>>
 
 ---------------------------------------------------------------------------
 (* the S3 reference listing *)
@@ -147,7 +150,7 @@ RefPage(B, r, a) ==
 (* generator and design-level model *)
 Reqs == [style : Styles, prefix : PrefixSet, delim : Delims, maxkeys : MaxKeysSet, after : Afters]
 Init == /\ present \in {B \in SUBSET Keys : Cardinality(B) <= MaxBucket}
-        /\ dirs = {}
+        /\ dirs = {} /\ allowEmpty = FALSE /\ devs = {}
         /\ phase = "idle" /\ req = [style |-> "marker", prefix |-> <<>>, delim |-> "", maxkeys |-> 1, after |-> <<>>]
         /\ seenK = {} /\ seenP = {} /\ pageNo = 0 /\ okv = TRUE
         /\ prev = [status |-> 200, keys |-> <<>>, cps |-> <<>>, trunc |-> FALSE, next |-> <<>>]
@@ -155,10 +158,10 @@ Init == /\ present \in {B \in SUBSET Keys : Cardinality(B) <= MaxBucket}
 GBegin(r) == /\ phase = "idle" /\ Len(hist) < MaxOps
              /\ hist' = Append(hist, [ev |-> "loop", style |-> r.style, prefix |-> r.prefix, delim |-> r.delim,
                                       maxkeys |-> r.maxkeys, after |-> r.after, keys |-> SetToSeq(present)])
-             /\ Apply(r, TRUE, RefPage(present, r, r.after))
+             /\ Apply(r, TRUE, dirs, RefPage(present, r, r.after)) /\ UNCHANGED devs
 GCont == /\ phase = "loop"
-         /\ Apply(req, FALSE, RefPage(present, req, NextAfter(req.style, prev)))
-         /\ UNCHANGED hist
+         /\ Apply(req, FALSE, dirs, RefPage(present, req, NextAfter(req.style, prev)))
+         /\ UNCHANGED <<hist, devs>>
 GEnd == EndLoop /\ UNCHANGED hist
 Next == (\E r \in Reqs : GBegin(r)) \/ GCont \/ GEnd
 Spec == Init /\ [][Next]_vars
